@@ -150,7 +150,7 @@ var cOpNames = [cNumOps]string{"ed.Sign", "ed.Verify", "ed.VerifyExpanded(shared
 	"ed.NewKeyFromSeed", "x25519.EdKeyConversions", "curve.MulBasepoint(shared user table)", "curve.ExpandedDoubleScalarMul(shared)", "ristretto.MulBasepoint+Expanded(shared)",
 	"merlin.Clone(shared origin)", "sr.Batch(shared keys)", "x25519.DH(shared keys)", "curve.MultiscalarMulVartime(package tables)", "h2c.XMD+ristretto",
 	"ed.Sign(hedged, entropy reader fails)", "curve.MultiscalarMulVartime(>=190 terms: Pippenger)", "ed.VerifyBatchOnly(>=95 entries: Pippenger)",
-	"default entropy (nil readers): GenerateKey, hedged Sign, batch Verify",
+	"default entropy (nil readers): every entry point that falls back to the system source",
 	"decoders over shared wire encodings (sr25519, curve, scalar, x25519, ecvrf)"}
 
 func scal(i int) *scalar.Scalar {
@@ -344,6 +344,27 @@ func (sh *cShared) op(kind, i int) []byte {
 		sok, _ := sv.Verify(nil)
 		ssig, serr := sh.skp.Sign(nil, sh.sctx.NewTranscriptBytes(sh.msgs[k]))
 		out = append(out, bb(sok), bb(serr == nil && sh.spk.Verify(sh.sctx.NewTranscriptBytes(sh.msgs[k]), ssig)))
+		// every other entry point that falls back to the system source
+		pi, perr := ecvrf.ProveWithAddedRandomness(nil, sh.priv[k], sh.msgs[k])
+		vok, _ := ecvrf.Verify(sh.pub[k], pi, sh.msgs[k])
+		out = append(out, bb(perr == nil && vok))
+		xpub, xpriv, xerr := x25519.GenerateKey(nil)
+		out = append(out, bb(xerr == nil && xpub != nil && *xpriv.Public() == *xpub))
+		kp, kerr := sr25519.GenerateKeyPair(nil)
+		msk, merr := sr25519.GenerateMiniSecretKey(nil)
+		sk, skerr := sr25519.GenerateSecretKey(nil)
+		out = append(out, bb(kerr == nil && kp != nil), bb(merr == nil && msk != nil), bb(skerr == nil && sk != nil))
+		var rs scalar.Scalar
+		_, rserr := rs.SetRandom(nil)
+		var rpt curve.RistrettoPoint
+		_, rperr := rpt.SetRandom(nil)
+		out = append(out, bb(rserr == nil && rs.IsCanonical()), bb(rperr == nil))
+		trng, terr := sh.t0.Clone().BuildRng().RekeyWithWitnessBytes("w", sh.msgs[k]).Finalize(nil)
+		tb := make([]byte, 16)
+		if terr == nil {
+			_, terr = trng.Read(tb)
+		}
+		out = append(out, bb(terr == nil))
 		return out
 	case 24:
 		return sh.decodeShared(i)
